@@ -21,7 +21,11 @@ LEVEL_TEXT = ("Lean 4 theorems for every state, zone geometry, props_to_copy mas
               "arbitrary moves and update calls (inlet_copy_exactly_once_per_crossing, inlet_recycled_one_length, "
               "inlet_count_constant, inlet_ghost_recycled, outlet_move_exactly_once(_fluid), outlet_delete_far, "
               "outlet_deletes_exactly_far_local, inlet/outlet_nothing_else_changes, hybrid_inlet_same_bookkeeping, "
-              "mirror_outlet_move_exactly_once(_fluid), count_conservation, inlet_size_invariant, and over ordered "
+              "mirror_outlet_move_exactly_once(_fluid), mirror_ghost_stays_aligned (the mirror outlet's ghost array "
+              "stays index-aligned with the outlet: one index list removed from both, removeRows commutes with "
+              "map/zip), count_conservation, inlet_size_invariant, label uniqueness over histories "
+              "(outlet_creates_no_label, mirror_outlet_creates_no_label, inlet_adds_crossing_labels, "
+              "labels_never_duplicated, outlet_history_never_duplicates), and over ordered "
               "fields zoneId_eq_zero/one/two_iff, recycled_back_inside, overshoot_still_outside, "
               "ghost_stays_mirror_image) about a hand-written model transcribing InletBase/OutletBase.update, hybrid "
               "Inlet.update, mirror Outlet.update, IOEvaluate and the ParticleArray/cyarray operations they use "
@@ -32,7 +36,10 @@ LEVEL_TEXT = ("Lean 4 theorems for every state, zone geometry, props_to_copy mas
               "rationals to produce replays.")
 LEVEL_NOTE = ("Trusted: Lean kernel, axioms propext/Classical.choice/Quot.sound; the hand-written model (checked by the "
               "correspondence, ~1300 update calls quick); exact arithmetic in place of IEEE doubles for zone decisions; "
-              "record abstraction of a particle; serial CPU path; arrays aligned on entry. Not proved (stated as a "
-              "def): the mirror family's ghost array stays index-aligned with the outlet (checked on the real code "
-              "by the harness only); history-level label uniqueness is checked by the harness oracle, not proved.")
+              "record abstraction of a particle; serial CPU path; arrays aligned on entry. 42 theorems. "
+              "mirror_ghost_stays_aligned is proved for states whose fluid/outlet/ghost particles are all Local "
+              "(the shipped usage). History-level label uniqueness (labels_never_duplicated) is proved for the "
+              "labels of fluid+outlet under the side condition FreshRun: moves do not relabel flow particles and "
+              "every particle an inlet copies in carries a label new to the flow (the inlet original keeps its "
+              "label, the harness relabels it after the call); outlet-side histories need no side condition.")
 TIMEOUT = {'quick': 1500, 'thorough': 3 * 3600}
